@@ -92,6 +92,8 @@ def dec_class(b):
 
 def signature(rec, exp):
     """stable label of a disagreement between the real codec (rec) and the specification (exp)"""
+    if rec.get("k") == "encx":
+        return "encx:dgram:oversize-host-encoded"
     if rec.get("k") == "enc":
         op = rec.get("f", {}).get("op", "?")
         if not rec.get("out"):
@@ -129,7 +131,7 @@ def signature(rec, exp):
 
 def describe(rec, exp, sig, profile):
     out = [f"signature: {sig}   (build profile: {profile})"]
-    if rec.get("k") == "enc":
+    if rec.get("k") in ("enc", "encx"):
         f = rec["f"]
         out.append(f"frame: op={f['op']} id={f['id']} n={f['n']} port={f['port']} bind_type={f['bt']} "
                    f"host={len(expand(f['host']))} octets data={len(expand(f['data']))} octets")
@@ -153,8 +155,8 @@ def describe(rec, exp, sig, profile):
 
 def line_to_case(rec):
     """a logged line -> the case that produced it (for --replay)"""
-    if rec["k"] == "enc":
-        return dict(k="enc", f=rec["f"])
+    if rec["k"] in ("enc", "encx"):
+        return dict(k=rec["k"], f=rec["f"])
     c = dict(k="dec", b=rec["b"], ok=bool(rec.get("hp")))
     if rec.get("hp"):
         c["f"] = rec["p"]
